@@ -1028,7 +1028,7 @@ func interpretedList(x *Sym) bool {
 // computations (Split/Join, LastIndex + slicing, Replace …) are compared by what they compute.
 func (ev *evaluator) stringLib(s *Sym) (val, bool) {
 	switch s.Name {
-	case "strings.Split", "strings.Replace", "strings.Count", "strings.Index", "strings.LastIndex", "strings.TrimPrefix", "beforeLast", "afterLast":
+	case "strings.Split", "strings.Replace", "strings.Count", "strings.Index", "strings.LastIndex", "strings.TrimPrefix", "strings.Trim", "strings.TrimLeft", "strings.TrimRight", "beforeLast", "afterLast":
 		ev.learnKids(s.Kids)
 	}
 	str := func(i int) string { return ev.eval(s.Kids[i], "string").s }
@@ -1070,6 +1070,12 @@ func (ev *evaluator) stringLib(s *Sym) (val, bool) {
 		return val{k: 'i', i: int64(strings.LastIndex(str(0), str(1)))}, true
 	case "strings.TrimPrefix":
 		return val{k: 's', s: strings.TrimPrefix(str(0), str(1))}, true
+	case "strings.Trim":
+		return val{k: 's', s: strings.Trim(str(0), str(1))}, true
+	case "strings.TrimLeft":
+		return val{k: 's', s: strings.TrimLeft(str(0), str(1))}, true
+	case "strings.TrimRight":
+		return val{k: 's', s: strings.TrimRight(str(0), str(1))}, true
 	case "beforeLast": // everything before the last occurrence of the separator; "" when there is none
 		x, sep := str(0), str(1)
 		if i := strings.LastIndex(x, sep); i >= 0 && sep != "" {
